@@ -30,9 +30,10 @@ MODS = [
 ]
 CORE_MODS = [0, 1, 5, 8, 11]
 PROFILES = [('C1', 'S1', ['ta']), ('C2', '', []), ('', '', ['tb'])]
-CATS = {'C1': 'Food', 'C2': 'Bills', '': ''}
-SUBS = {'S1': 'Grocery', '': ''}
-TAGS = {'ta': 'Recurring', 'tb': 'watch'}
+# names are free text in the CSV: blanks, '#', '&', quotes and colons are ordinary characters there
+CATS = {'C1': 'Food & Drink', 'C2': 'Repairs #2 Elm St', '': ''}
+SUBS = {'S1': 'Unit #1: "A"', '': ''}
+TAGS = {'ta': 'Recurring', 'tb': 'acct #7'}
 DESCS = ['ALFA STORE', 'ALFA  STORE 12', 'BETA.STORE', 'ALFA "Q" STORE', 'XALFA', 'alfa store 9', "O'K CORRAL", 'ZULU']
 AMT_DATES = [(49.99, (2025, 1, 15)), (50.0, (2024, 12, 31)), (99.99, (2025, 1, 1)), (99.995, (2025, 1, 15)), (100.0, (2025, 1, 31)),
              (100.005, (2025, 2, 1)), (100.01, (2025, 1, 15)), (150.0, (2025, 1, 20)), (15.995, (2025, 1, 15)), (15.99, (2025, 3, 3))]
